@@ -197,129 +197,185 @@ func ruleR26(c *Ctx) {
 		}
 	}
 	allUnits = units
-	for _, u := range units {
-		fl := c.e.flow(u)
-		props := []string{"C13"}
-		if strings.Contains(strings.ToLower(u.Name), "collat") {
-			props = append(props, "C08") // keys are returned exactly as inserted
+	// keeps: helpers that keep a reference to the bytes of a parameter (spanOf(b) returning a
+	// struct with b's data pointer, newLeaf(key, …)): a call of one is itself a sink of its
+	// argument. Filled by a first, silent pass over the units.
+	keeps := map[*types.Func]map[int]bool{}
+	inByteKind := func(u *FuncUnit) bool {
+		for x := u; x != nil; x = x.Parent {
+			for _, tk := range c.byteKeyKinds() {
+				if x.Recv == tk.Name {
+					return true
+				}
+			}
+			if x.Parent == nil && x.Recv == "" {
+				return true // a plain function: its own parameters are judged at its call sites
+			}
 		}
-		capturedFromOutside := func(v *types.Var) bool {
-			return u.Lit != nil && !(v.Pos() >= u.Lit.Pos() && v.Pos() <= u.Lit.End())
+		return false
+	}
+	for pass := 0; pass < 2; pass++ {
+		silent := pass == 0
+		if !silent {
+			nW, nR = 0, 0
+			closureSinks = map[*FuncUnit][]deferred{}
 		}
-		sink := func(kind string, v *types.Var, how string, node ast.Node, fs *FactSet) {
-			key := fmt.Sprintf("%s %s %s", u.Name, how, v.Name())
-			if capturedFromOutside(v) {
-				closureSinks[u] = append(closureSinks[u], deferred{v, how, node})
-				return
+		for _, u := range units {
+			fl := c.e.flow(u)
+			props := []string{"C13"}
+			if strings.Contains(strings.ToLower(u.Name), "collat") {
+				props = append(props, "C08") // keys are returned exactly as inserted
 			}
-			if kind == "W" {
-				nW++
-			} else {
-				nR++
+			capturedFromOutside := func(v *types.Var) bool {
+				return u.Lit != nil && !(v.Pos() >= u.Lit.Pos() && v.Pos() <= u.Lit.End())
 			}
-			if fs.isFresh(v) {
-				c.r.ok("R26", key, m.pos(node.Pos()), v.Name()+" is known to refer to memory allocated by the library (copy) on every path", props...)
-				return
-			}
-			// a parameter of a helper (newLeaf(key, …)) – or a local that is only ever a reslice of
-			// one: the obligation moves to the call sites of the helper
-			if src := resliceSource(info, u.Body, v); src != nil && src != v && !isTreeMethod(u) && !assignedAnywhere(info, u.Body, src) {
-				if pi := paramIndex(u, src); pi >= 0 {
+			sink := func(kind string, v *types.Var, how string, node ast.Node, fs *FactSet) {
+				key := fmt.Sprintf("%s %s %s", u.Name, how, v.Name())
+				if silent {
+					if pi := paramIndex(u, v); kind == "R" && pi >= 0 && u.Obj != nil && !isTreeMethod(u) && !assignedAnywhere(info, u.Body, v) {
+						if keeps[u.Obj] == nil {
+							keeps[u.Obj] = map[int]bool{}
+						}
+						keeps[u.Obj][pi] = true
+					}
+					return
+				}
+				if capturedFromOutside(v) {
+					closureSinks[u] = append(closureSinks[u], deferred{v, how, node})
+					return
+				}
+				if kind == "W" {
+					nW++
+				} else {
+					nR++
+				}
+				if fs.isFresh(v) {
+					c.r.ok("R26", key, m.pos(node.Pos()), v.Name()+" is known to refer to memory allocated by the library (copy) on every path", props...)
+					return
+				}
+				// a parameter of a helper (newLeaf(key, …)) – or a local that is only ever a reslice of
+				// one: the obligation moves to the call sites of the helper
+				if src := resliceSource(info, u.Body, v); src != nil && src != v && !isTreeMethod(u) && !assignedAnywhere(info, u.Body, src) {
+					if pi := paramIndex(u, src); pi >= 0 {
+						if okAll, nCalls, _ := paramFreshAtCalls(u, pi); okAll && nCalls > 0 {
+							c.r.ok("R26", key, m.pos(node.Pos()), fmt.Sprintf("%s is a reslice of parameter %s: every one of the %d call sites in byte-keyed trees passes a copy made by the library", v.Name(), src.Name(), nCalls), props...)
+							return
+						}
+					}
+				}
+				if pi := paramIndex(u, v); pi >= 0 && !isTreeMethod(u) && !assignedAnywhere(info, u.Body, v) {
 					if okAll, nCalls, _ := paramFreshAtCalls(u, pi); okAll && nCalls > 0 {
-						c.r.ok("R26", key, m.pos(node.Pos()), fmt.Sprintf("%s is a reslice of parameter %s: every one of the %d call sites in byte-keyed trees passes a copy made by the library", v.Name(), src.Name(), nCalls), props...)
+						c.r.ok("R26", key, m.pos(node.Pos()), fmt.Sprintf("parameter %s: every one of the %d call sites in byte-keyed trees passes a copy made by the library", v.Name(), nCalls), props...)
 						return
 					}
 				}
-			}
-			if pi := paramIndex(u, v); pi >= 0 && !isTreeMethod(u) && !assignedAnywhere(info, u.Body, v) {
-				if okAll, nCalls, _ := paramFreshAtCalls(u, pi); okAll && nCalls > 0 {
-					c.r.ok("R26", key, m.pos(node.Pos()), fmt.Sprintf("parameter %s: every one of the %d call sites in byte-keyed trees passes a copy made by the library", v.Name(), nCalls), props...)
-					return
+				if pi := paramIndex(u, v); kind == "R" && pi >= 0 && u.Obj != nil && keeps[u.Obj][pi] && !isTreeMethod(u) {
+					// the helper only hands the reference on (or builds a leaf for its caller): every
+					// call of it in the byte-keyed trees is a sink of its argument and is judged there
+					n := 0
+					for _, s := range c.callSitesOf(u) {
+						if reach[s.u] && inByteKind(s.u) {
+							n++
+						}
+					}
+					if n > 0 {
+						c.r.ok("R26", key, m.pos(node.Pos()), fmt.Sprintf("parameter %s: each of the %d calls of %s in byte-keyed trees is judged as the place that keeps the reference", v.Name(), n, u.Name), props...)
+						return
+					}
+				}
+				if kind == "W" {
+					c.r.bad("R26", key, m.pos(node.Pos()), fmt.Sprintf("%s may alias the caller's key slice here and is written to (an append writes into the spare capacity of the caller's backing array)", v.Name()), props...)
+				} else {
+					c.r.bad("R26", key, m.pos(node.Pos()), fmt.Sprintf("%s may alias the caller's key slice here and a reference to its bytes is stored in the tree: reusing the buffer later changes the stored key", v.Name()), props...)
 				}
 			}
-			if kind == "W" {
-				c.r.bad("R26", key, m.pos(node.Pos()), fmt.Sprintf("%s may alias the caller's key slice here and is written to (an append writes into the spare capacity of the caller's backing array)", v.Name()), props...)
-			} else {
-				c.r.bad("R26", key, m.pos(node.Pos()), fmt.Sprintf("%s may alias the caller's key slice here and a reference to its bytes is stored in the tree: reusing the buffer later changes the stored key", v.Name()), props...)
-			}
+			fl.walk(func(n ast.Node, fs *FactSet, stmt ast.Node, b *cfg.Block) {
+				switch x := n.(type) {
+				case *ast.CallExpr:
+					name := m.calleeName(x)
+					switch {
+					case isBuiltinCall(info, x, "append") && len(x.Args) > 0:
+						if v := suspect(x.Args[0]); v != nil {
+							sink("W", v, "append to", x, fs)
+						}
+					case (isBuiltinCall(info, x, "copy") || isBuiltinCall(info, x, "clear")) && len(x.Args) > 0:
+						if v := suspect(x.Args[0]); v != nil {
+							sink("W", v, "copy into", x, fs)
+						}
+					case name == "unsafe.SliceData" && len(x.Args) == 1:
+						if v := suspect(x.Args[0]); v != nil {
+							sink("R", v, "stores the data pointer of", x, fs)
+						}
+					default:
+						// passing a suspect slice to a callee that writes through that parameter
+						var w map[int]bool
+						if f := m.staticCallee(x); f != nil {
+							if f.Pkg() == m.Pkg {
+								w = c.e.writesThrough(f)
+							} else {
+								w = externalWrites[name]
+								if w == nil && !isExternalPure(name) && !isConversion(info, x) {
+									w = map[int]bool{}
+									for i := range x.Args {
+										w[i] = true
+									}
+								}
+							}
+						}
+						for i := range w {
+							if a := callArgFor(x, i); a != nil {
+								if v := suspect(a); v != nil {
+									sink("W", v, "passes to "+name+", which writes through its argument,", x, fs)
+								}
+							}
+						}
+						if f := m.staticCallee(x); f != nil && !silent && inByteKind(u) {
+							for i := range keeps[f] {
+								if a := callArgFor(x, i); a != nil {
+									if v := suspect(a); v != nil {
+										sink("R", v, "passes to "+name+", which keeps a reference to its argument,", x, fs)
+									}
+								}
+							}
+						}
+					}
+				case *ast.AssignStmt:
+					for i, l := range x.Lhs {
+						if ie, ok := ast.Unparen(l).(*ast.IndexExpr); ok {
+							if v := suspect(ie.X); v != nil {
+								sink("W", v, "indexed store into", x, fs)
+							}
+						}
+						// storing the slice itself into non-local memory
+						if _, isId := ast.Unparen(l).(*ast.Ident); !isId && len(x.Lhs) == len(x.Rhs) {
+							if v := suspect(x.Rhs[i]); v != nil {
+								if rv, through := rootVar(info, l); rv == nil || through {
+									if why := c.scratchField(l); why != "" && !fs.isFresh(v) {
+										nR++
+										c.r.ok("R26", fmt.Sprintf("%s stores in scratch field the slice %s", u.Name, v.Name()), m.pos(x.Pos()), why, props...)
+										c.r.exception(why)
+									} else {
+										sink("R", v, "stores in the tree the slice", x, fs)
+									}
+								}
+							}
+						}
+					}
+				case *ast.UnaryExpr:
+					if x.Op == token.AND {
+						if ie, ok := ast.Unparen(x.X).(*ast.IndexExpr); ok {
+							if v := suspect(ie.X); v != nil {
+								sink("R", v, "takes the address of an element of", x, fs)
+							}
+						}
+					}
+				case *ast.KeyValueExpr:
+					if v := suspect(x.Value); v != nil {
+						sink("R", v, "stores in a composite literal the slice", x, fs)
+					}
+				}
+			})
 		}
-		fl.walk(func(n ast.Node, fs *FactSet, stmt ast.Node, b *cfg.Block) {
-			switch x := n.(type) {
-			case *ast.CallExpr:
-				name := m.calleeName(x)
-				switch {
-				case isBuiltinCall(info, x, "append") && len(x.Args) > 0:
-					if v := suspect(x.Args[0]); v != nil {
-						sink("W", v, "append to", x, fs)
-					}
-				case (isBuiltinCall(info, x, "copy") || isBuiltinCall(info, x, "clear")) && len(x.Args) > 0:
-					if v := suspect(x.Args[0]); v != nil {
-						sink("W", v, "copy into", x, fs)
-					}
-				case name == "unsafe.SliceData" && len(x.Args) == 1:
-					if v := suspect(x.Args[0]); v != nil {
-						sink("R", v, "stores the data pointer of", x, fs)
-					}
-				default:
-					// passing a suspect slice to a callee that writes through that parameter
-					var w map[int]bool
-					if f := m.staticCallee(x); f != nil {
-						if f.Pkg() == m.Pkg {
-							w = c.e.writesThrough(f)
-						} else {
-							w = externalWrites[name]
-							if w == nil && !isExternalPure(name) && !isConversion(info, x) {
-								w = map[int]bool{}
-								for i := range x.Args {
-									w[i] = true
-								}
-							}
-						}
-					}
-					for i := range w {
-						if a := callArgFor(x, i); a != nil {
-							if v := suspect(a); v != nil {
-								sink("W", v, "passes to "+name+", which writes through its argument,", x, fs)
-							}
-						}
-					}
-				}
-			case *ast.AssignStmt:
-				for i, l := range x.Lhs {
-					if ie, ok := ast.Unparen(l).(*ast.IndexExpr); ok {
-						if v := suspect(ie.X); v != nil {
-							sink("W", v, "indexed store into", x, fs)
-						}
-					}
-					// storing the slice itself into non-local memory
-					if _, isId := ast.Unparen(l).(*ast.Ident); !isId && len(x.Lhs) == len(x.Rhs) {
-						if v := suspect(x.Rhs[i]); v != nil {
-							if rv, through := rootVar(info, l); rv == nil || through {
-								if why := c.scratchField(l); why != "" && !fs.isFresh(v) {
-									nR++
-									c.r.ok("R26", fmt.Sprintf("%s stores in scratch field the slice %s", u.Name, v.Name()), m.pos(x.Pos()), why, props...)
-									c.r.exception(why)
-								} else {
-									sink("R", v, "stores in the tree the slice", x, fs)
-								}
-							}
-						}
-					}
-				}
-			case *ast.UnaryExpr:
-				if x.Op == token.AND {
-					if ie, ok := ast.Unparen(x.X).(*ast.IndexExpr); ok {
-						if v := suspect(ie.X); v != nil {
-							sink("R", v, "takes the address of an element of", x, fs)
-						}
-					}
-				}
-			case *ast.KeyValueExpr:
-				if v := suspect(x.Value); v != nil {
-					sink("R", v, "stores in a composite literal the slice", x, fs)
-				}
-			}
-		})
 	}
 	// closures: evaluate the deferred sinks at every call site of the closure
 	for lu, ds := range closureSinks {
